@@ -2,7 +2,7 @@
 from pyvc.api import *
 
 SPEC_FUNCTIONS = ['text_len', 'eff_line', 'pos_in_range', 'eff_column']
-SPEC_IMPORTS = ['contracts.common', 'contracts.c11']
+SPEC_IMPORTS = ['contracts.common', 'contracts.c11', 'contracts.c10']
 
 
 def text_len(line):
@@ -231,5 +231,6 @@ CONTRACTS = [
 def dynamic_contracts(repo):
     """Signature.index is computed lazily when a result of get_signatures() is looked at: the exception-freedom
     (safety) obligations of CallDetails.calculate_index are shared with C11 (bounded shapes: n arguments, m params)"""
-    from contracts import c11
-    return list(c11.CALC)
+    from contracts import c11, c10
+    # exception-freedom of the import-path rewriting (IndexError on an empty import path): shared with C10
+    return list(c11.CALC) + [c10._importer_init]
